@@ -16,6 +16,7 @@ for d in /verif/seeded/*/; do
   [ -n "$only" ] && [ "$only" != "$id" ] && continue
   [ -f $d/patch.diff ] || continue
   [ -n "${ONLY_ROUND2:-}" ] && [ ! -f $d/.round ] && continue
+  [ -n "${ONLY_ROUND:-}" ] && [ "$(cat $d/.round 2>/dev/null)" != "$ONLY_ROUND" ] && continue
   cd $W && git checkout -q -- . && git clean -fdq wgsl_to_wgpu/tests
   demo=demo_$(echo $id | tr '-' '_' | tr 'A-Z' 'a-z')
   if [ -d $d/demo ]; then echo "$id: standalone demo dir (manual)" >> $OUT; continue; fi
